@@ -813,14 +813,44 @@ impl SimProp for C16 {
         }
     }
     fn generate(&self, g: &mut Gen, tier: Tier) -> SimCase {
-        gen_unfiltered(g, tier, &|g, mc| {
+        let mut c = gen_unfiltered(g, tier, &|g, mc| {
             mc.action_w = [1, 1, 4, 6, 1];
             mc.times_us = vec![0.0, 1.0, 10.0, 100.0, 1000.0, 5000.0, 20000.0];
             mc.p_trans = *g.pick(&[0.3, 0.5, 0.7]);
             mc.block_budgets = vec![u64::MAX];
             mc.pad_budgets = vec![u64::MAX];
             mc.fracs = vec![0.0];
-        })
+        });
+        // flag twins: a copy of one machine of a side with the same timeouts and
+        // durations but the opposite bypass flag (and replace set) on its blocking
+        // actions, and bypass set on its paddings: two blocking actions that fire at
+        // the same instant, expire at the same instant and disagree about bypass
+        if g.chance(0.25) {
+            let client = g.bool();
+            let side = if client { &mut c.mc } else { &mut c.ms };
+            if !side.is_empty() && side.len() < 4 {
+                let mut t = side[g.usize(side.len())].clone();
+                let force_replace = g.bool();
+                for st in t.states.iter_mut() {
+                    match st.action.as_mut() {
+                        Some(maybenot::action::Action::BlockOutgoing { bypass, replace, .. }) => {
+                            *bypass = !*bypass;
+                            if force_replace {
+                                *replace = true;
+                            }
+                        }
+                        Some(maybenot::action::Action::SendPadding { bypass, .. }) => *bypass = true,
+                        _ => {}
+                    }
+                }
+                if g.bool() {
+                    side.push(t);
+                } else {
+                    side.insert(0, t);
+                }
+            }
+        }
+        c
     }
     fn check(&self, case: &SimCase, stats: &mut Stats) -> Vec<(String, String)> {
         let (v, o) = run_model("C16", case, stats);
